@@ -72,6 +72,7 @@ func (e *ParserData) checkStackOverflow() bool {
 }
 
 func (e *ParserData) WriteCode(T CodeType, value any) {
+	verifEmit(e, T, value)
 	if e.checkStackOverflow() {
 		return
 	}
